@@ -277,7 +277,7 @@ def mon_C04(rng, budget, tier):
                     a, b = base[o][j], got[new][jj]
                     sc = max(abs(a[0]), infl[o][j][1])
                     allow = _tm_tie_mu_allow(kind, st, infl, keys, o, j)
-                    if not (_close_mu(a[0], b[0], sc) or abs(a[0] - b[0]) <= allow) or not _close_rel(a[1], b[1], srel):
+                    if not (_close_mu(a[0], b[0], sc) or abs(a[0] - b[0]) <= allow + 1e-9 * max(sc, abs(a[0]), abs(b[0]))) or not _close_rel(a[1], b[1], srel):
                         mon.fail("permutation", case, "player [%d][%d] gets %s in the original listing and %s after "
                                  "reordering (sigma tolerance %.1e)" % (o, j, a, b, srel))
     api.pool(False)
@@ -1959,7 +1959,7 @@ def _spec_diff(kind, st, infl, keys, got, want, srel):
             a, b = got[t][j], want[t][j]
             sc = max(abs(b[0]), infl[t][j][1])
             allow = _tm_tie_mu_allow(kind, st, infl, keys, t, j)
-            if not (_close_mu(a[0], b[0], sc) or abs(a[0] - b[0]) <= allow) or not _close_rel(a[1], b[1], srel):
+            if not (_close_mu(a[0], b[0], sc) or abs(a[0] - b[0]) <= allow + 1e-9 * max(sc, abs(a[0]), abs(b[0]))) or not _close_rel(a[1], b[1], srel):
                 return "player [%d][%d]: rate returned %s, closed form gives %s" % (t, j, a, b)
     return None
 
